@@ -164,6 +164,32 @@ def gen_c03(g, budget, optional=False):
             spec = bqlgen.clause(bqlgen.S(c=t[0]), bqlgen.P(c=t[1]), bqlgen.O(cell=t[2]))
             spec[pos]["as"] = "?v"
             cls = [first, spec] if g.rng.random() < 0.7 else [spec, first]
+        elif r < 0.27 and not optional:
+            # bounds written with bindings: an earlier clause binds a time (anchor binding or AT alias, also of a
+            # predicate-valued object of an IMMUTABLE triple, which no global bound touches), a later clause uses it
+            # as lower and / or upper bound; global bounds on top
+            content = sorted(set(g.content(4, 8)) | {1, 2, 3, 20, 13, 14, 15, 16, 17, 26, 27, 28, 29, 30, 39})
+            src = g.rng.choice(["p.ab", "p.at", "o.ab", "o.at"])
+            if src == "p.ab":
+                first = bqlgen.clause(bqlgen.S(b="?a"), bqlgen.P(pid=g.rng.choice(bqlgen.PIDS), ab="?t"), bqlgen.O(b="?x"))
+            elif src == "p.at":
+                first = bqlgen.clause(bqlgen.S(b="?a"), bqlgen.P(b="?q", at="?t"), bqlgen.O(b="?x"))
+            elif src == "o.ab":
+                first = bqlgen.clause(bqlgen.S(b="?a"), bqlgen.P(b="?q"), bqlgen.O(pid=bqlu.sid("p"), ab="?t"))
+            else:
+                first = bqlgen.clause(bqlgen.S(b="?a"), bqlgen.P(b="?q"), bqlgen.O(b="?x", at="?t"))
+            side = g.rng.choice(["lo", "hi", "both", "lo+const", "hi+const"])
+            p2 = bqlgen.P(pid=g.rng.choice(bqlgen.PIDS), bd=True)
+            if side in ("lo", "both", "lo+const"):
+                p2["lb"] = "?t"
+            if side in ("hi", "both", "hi+const"):
+                p2["ub"] = "?t"
+            if side == "lo+const":
+                p2["hi"] = g.rng.randint(1, len(bqlu.INSTANTS))
+            if side == "hi+const":
+                p2["lo"] = g.rng.randint(1, len(bqlu.INSTANTS))
+            second = bqlgen.clause(bqlgen.S(b=g.rng.choice(["?a", "?b"])), p2, bqlgen.O(b=g.rng.choice(["?y", "?x"])))
+            cls = [first, second]
         elif r < 0.4:
             cls = [mk(p_alias=0.3)]
         elif r < 0.8:
